@@ -1,13 +1,29 @@
 import Verif.Base.Sexp
 import Verif.Model.KeyToLabel
+import Verif.Model.Rfc3339
+import Verif.Model.Frames
 /-! Line-protocol driver: one request per line on stdin, one reply per line on stdout.
 Core-only (no Mathlib), compiled as `lean_exe driver`. -/
 open Sexp
+
+def endSym : Frames.End → Sexp
+  | .clean => sym "clean" | .errBody => sym "errbody" | .errDaemon => sym "errdaemon"
+  | .errNoSpace => sym "errnospace" | .errTs => sym "errts"
+
+def framesOut (r : List Frames.Rec × Frames.End) : Sexp :=
+  .list [.list (r.1.map fun x => .list [sym "rec", ofInt x.ts, ofBytes x.body]), endSym r.2]
 
 def handle (req : Sexp) : Sexp :=
   match req.head?, req.args with
   | some "keytolabel", [k] => ofBytes (KeyToLabel.run k.toBytes)
   | some "validlabel", [d, k] => ofNat (if KeyToLabel.isValidLabel (d.toNat == 1) k.toBytes then 1 else 0)
+  | some "rfc3339", [t] => match Rfc3339.parse t.toBytes with
+    | some ns => .list [sym "ok", ofInt ns]
+    | none => .list [sym "err"]
+  | some "frames", [bs] => framesOut (Frames.decodeAll Rfc3339.parse bs.toBytes)
+  | some "frameschunks", [cs] =>
+    let chunks := cs.items.map toBytes
+    framesOut (Frames.decodeChunks Rfc3339.parse (chunks.flatten.length + 1) chunks)
   | _, _ => .list [sym "bad-op"]
 
 partial def loop (h : IO.FS.Stream) (out : IO.FS.Stream) : IO Unit := do
